@@ -10,6 +10,7 @@ from vf import core
 
 META = {
     'property_id': 'C15',
+    'confirm_by_replay': True,   # bin/check re-executes the stimulus of every violation before it is reported
     'level': 'model_checking',
     'technique': 'per-method handler step sequences (authorisation step vs effects, in code order) transcribed in TLA+ '
                  '(Authz.tla), enumerated by TLC over start situations x policies x calls x one policy edit/reload; '
